@@ -10,7 +10,7 @@
                         identifiers, formulae and SMILES-like labels, e.g. CC(=O)O, C#C, Fe(OH)3 ([ex_label_domain]).
       [rxns_of H]       the stored reactions (rule, reactants, products) as a list; multiset equality is [≡ₚ]. *)
 From stdpp Require Import gmap strings sets.
-From SK Require Import lib.Tok model.C15_Model proof.C15_Proof model.C16_Model proof.C16_Defs proof.C16_Chars proof.C16_Str proof.C16_Sg proof.C16_BipA proof.C16_BipB proof.C16_Reach proof.C16_SgMol proof.C16_SgRules proof.C16_StrItems proof.C16_StrOrder.
+From SK Require Import lib.Tok model.C15_Model proof.C15_Proof model.C16_Model proof.C16_Defs proof.C16_Chars proof.C16_Str proof.C16_Sg proof.C16_BipA proof.C16_BipB proof.C16_BipNum proof.C16_Reach proof.C16_SgMol proof.C16_SgRules proof.C16_StrItems proof.C16_StrOrder.
 Local Open Scope string_scope.
 
 (** every network reachable through the store operations (C15_inv_reachable) satisfies the decidable premise used below *)
@@ -184,3 +184,15 @@ Theorem C16_species_graph_roundtrip_rules :
   edges (species_graph_to_hypergraph pick default_rule mol_attr (hypergraph_to_species_graph include_mol H)).1 = edges H.
 Proof. exact species_graph_roundtrip_rules. Qed.
 Print Assumptions C16_species_graph_roundtrip_rules.
+
+(** ** Bipartite export, integer_ids=True: the documented numbering *)
+(** "species ids are 1..N and reactions N+1..N+M": the i-th exported species in sorted label order is node i+1 (with its
+    species attributes), the j-th reaction in sorted id order is node N+j+1 (N = number of exported species) *)
+Theorem C16_bipartite_integer_numbering : ∀ (fl : bflags) (H : net), f_int fl = true → wf_species H →
+  (∀ i s, species_iter fl H !! i = Some s →
+     b_nodes (hypergraph_to_bipartite fl H) !! inl (N.of_nat i + 1)%N = Some (sp_attrs fl H s)) ∧
+  (∀ j e rx, sort_by_key (map_to_list (edges H)) !! j = Some (e, rx) →
+     b_nodes (hypergraph_to_bipartite fl H) !! inl (N.of_nat (length (species_iter fl H) + j) + 1)%N
+     = Some (rx_attrs fl e (r_rule rx))).
+Proof. exact bipartite_numbering. Qed.
+Print Assumptions C16_bipartite_integer_numbering.
